@@ -303,6 +303,20 @@ func c18Requests(thorough bool) map[string][]rreq {
 			tv = append(tv, rreq{Method: "POST", Path: "/totp/validate", Fields: f})
 		}
 	}
+	// periods of every kind (primes, powers of two, hours, days ...) x instants spread over each step: nothing between the
+	// request and the library may round, truncate or align the instant
+	for _, per := range []uint64{7, 11, 13, 14, 21, 29, 31, 45, 81, 90, 125, 512, 600, 3600, 86400, 604800} {
+		for j := uint64(0); j < 7; j++ {
+			ts := uint64(1700000001) + j*(per/6+1)
+			for _, al := range []string{"SHA1", "SHA512"} {
+				tv = append(tv, rreq{Method: "POST", Path: "/totp/generate", Fields: map[string]any{"secret": u, "timestamp": ts, "period": per, "digits": "8", "algorithm": al}})
+				an := refAlgo(al)
+				for _, dist := range []int64{-1, 0, 1} {
+					tv = append(tv, rreq{Method: "POST", Path: "/totp/validate", Fields: map[string]any{"secret": u, "timestamp": ts, "period": per, "digits": "8", "algorithm": al, "code": ref.HOTP(restKey, uint64(int64(ref.Step(int64(ts), per))+dist), 8, an)}})
+				}
+			}
+		}
+	}
 	// "now": no timestamp
 	tv = append(tv, rreq{Method: "POST", Path: "/totp/validate", Fields: map[string]any{"secret": u, "code": "000000", "skew": 1}})
 	out["/hotp/validate"], out["/totp/validate"] = hv, tv
